@@ -28,6 +28,17 @@ from pyplumio.helpers.event_manager import EventManager  # noqa: E402
 TICK = 0.5
 
 
+# The model's values are naturals; on the implementation side every value is shifted by a constant
+# (python value = model value - SHIFT), so that some dispatched / returned values are FALSY but not
+# None (0): "a None return keeps the value" must not be confused with "a falsy return keeps it".
+# Callbacks add constants, so the shift commutes with everything the callbacks do.
+SHIFT = 11
+
+
+def _up(v):
+    return None if v is None else v + SHIFT
+
+
 class Impl:
     """one history on the real EventManager"""
 
@@ -59,7 +70,7 @@ class Impl:
 
             async def f(v, cb=cb, susp=susp, ret=ret):
                 i = self.task_index.get(asyncio.current_task(), -1)
-                self.log.append((i, cb, v))
+                self.log.append((i, cb, v + SHIFT))
                 for _ in range(susp):
                     fut = self.loop.create_future()
                     self.pending[i] = (fut, cb)
@@ -90,10 +101,10 @@ class Impl:
             other = w[2].endswith("!")
             v = int(w[2].rstrip("!"))
             if other:
-                t = self.loop.create_task(self.em.dispatch(name, v))
+                t = self.loop.create_task(self.em.dispatch(name, v - SHIFT))
             else:
                 before = set(self.em.tasks)
-                self.em.dispatch_nowait(name, v)
+                self.em.dispatch_nowait(name, v - SHIFT)
                 (t,) = set(self.em.tasks) - before
             self.task_index[t] = len(self.dtasks)
             self.dtasks.append(t)
@@ -114,7 +125,7 @@ class Impl:
                         v = self.em.data.get(name)
                     else:
                         v = await self.em.get(name, timeout)
-                    rec.update(state="r", v=v, at=self.ticks())
+                    rec.update(state="r", v=_up(v), at=self.ticks())
                 except asyncio.TimeoutError:
                     rec.update(state="x", at=self.ticks())
 
@@ -134,7 +145,7 @@ class Impl:
     def snap(self):
         parts = []
         for n in range(3):
-            v = self.em.data.get(f"n{n}")
+            v = _up(self.em.data.get(f"n{n}"))
             parts.append(f"D{n}={'-' if v is None else v}")
         for i, t in enumerate(self.dtasks):
             if t.done():
@@ -154,7 +165,7 @@ class Impl:
                 parts.append(f"W{j}=w")
         parts.append("@" + fmt_t(self.ticks()))
         self.snaps.append(" ".join(parts))
-        self.snap_info.append(dict(op=self.op_index, now=self.ticks(), data=dict(self.em.data),
+        self.snap_info.append(dict(op=self.op_index, now=self.ticks(), data={k: _up(x) for k, x in self.em.data.items()},
                                    done=[t.done() for t in self.dtasks],
                                    waiting=[r["state"] == "c" for r in self.waiters]))
 
